@@ -251,3 +251,21 @@ CALLS = EventSpec("calls", call_events)
 
 def fn_label(fn: FunctionInfo) -> str:
     return fn.qualname
+
+
+def called_attr(fn, call, node=None):
+    """the attribute a call goes through: `x.attr(...)`, or `f(...)` where the local f only ever holds `x.attr`
+    (`custom = self.validator; custom(cfg, value)`); None otherwise"""
+    import ast as _ast
+    from engine.defuse import value_sources as _vs
+    if not isinstance(call, _ast.Call):
+        return None
+    f = call.func
+    if isinstance(f, _ast.Attribute):
+        return f.attr
+    if isinstance(f, _ast.Name):
+        srcs = _vs(fn, f, node)
+        attrs = {pl.attr if k == "expr" and isinstance(pl, _ast.Attribute) else None for k, pl in srcs}
+        if len(attrs) == 1 and None not in attrs:
+            return attrs.pop()
+    return None
